@@ -376,6 +376,9 @@ func init() {
 			}
 		}
 		// find "1" separator position: require concrete hrp prefix shape "xx1"
+		if len(ss) < 8 {
+			return tuple{"", []value(nil), fr.i.newError("decoding bech32 failed: invalid bech32 string length", iface{})}
+		}
 		px.w.ex.noteAssumption("bech32 decoding of an arbitrary symbolic string: validity is an unconstrained boolean; decoded bytes are fresh and tied injectively to the text")
 		valid := px.freshVar("", boolSort)
 		if !px.branch(valid) {
@@ -401,7 +404,14 @@ func init() {
 		hrpElems := ss[:pos]
 		hb, ok := concBytes(hrpElems)
 		if !ok {
-			panic(engineError{"bech32: symbolic human-readable part"})
+			// symbolic prefix: the decoded bytes are fresh and not tied to an encoding (callers
+			// reject the address on the prefix comparison or use the bytes as an opaque account)
+			nData := (len(ss) - pos - 1 - 6) * 5 / 8
+			data := make([]value, nData)
+			for j := range data {
+				data[j] = symv{t: px.freshVar("", bvSort(8)), k: types.Uint8}
+			}
+			return tuple{sstr(append([]value(nil), hrpElems...)), data, iface{}}
 		}
 		nData := (len(ss) - pos - 1 - 6) * 5 / 8
 		data := make([]value, nData)
